@@ -190,7 +190,9 @@ Proof.
     rewrite finalize_range_next. pose proof (run_script_next scr s []) as H. rewrite E in H. exact H.
   - destruct (batch_dup defs).
     + pose proof (refs_err_next s defs (S n) []). lia.
-    + pose proof (refs_ok_next s defs boxes ret). lia.
+    + destruct (created_dup _ _).
+      * pose proof (refs_err_next s defs (length defs) []). lia.
+      * pose proof (refs_ok_next s defs boxes ret). lia.
   - pose proof (refs_err_next s defs done partial). lia.
 Qed.
 
@@ -205,7 +207,8 @@ Qed.
 Lemma add_refs_allocates : forall s defs boxes ret,
   next_id s + N.of_nat (length defs) <= next_id (fst (run_call s (AddRefs defs boxes ret))).
 Proof.
-  intros. cbn [run_call]. destruct (batch_dup defs); [apply refs_err_next|apply refs_ok_next].
+  intros. cbn [run_call]. destruct (batch_dup defs); [apply refs_err_next|].
+  destruct (created_dup _ _); [apply refs_err_next|apply refs_ok_next].
 Qed.
 
 (* ------------------------------------------------------------------ *)
@@ -319,7 +322,8 @@ Proof.
   - unfold add_type. destruct (run_script s [] scr) as [s' res] eqn:E. cbn [fst].
     pose proof (run_script_kept scr (next_id s) s [] (N.le_refl _)) as H. rewrite E in H. cbn [fst] in H.
     eapply kept_trans; [exact H|]. apply finalize_range_kept. apply H.
-  - destruct (batch_dup defs); [apply refs_err_kept|]. unfold refs_ok. cbn [fst].
+  - destruct (batch_dup defs); [apply refs_err_kept|].
+    destruct (created_dup _ _); [apply refs_err_kept|]. unfold refs_ok. cbn [fst].
     cbn [boxes_of_call_new] in Hc.
     pose proof (reserve_kept (next_id s) s defs (N.le_refl _)) as H1.
     pose proof (convert_defs_kept defs (next_id s) (reserve s defs) (next_id s) (proj1 H1) (N.le_refl _)) as H2.
@@ -488,7 +492,8 @@ Proof.
   intros s [scr|defs boxes ret|defs done partial] H Hf; cbn [run_call fresh_call] in *.
   - unfold add_type. destruct (run_script s [] scr) as [s' res] eqn:E. cbn [fst].
     apply finalize_range_NInv. pose proof (run_script_NInv scr s [] H) as H'. rewrite E in H'. exact H'.
-  - destruct (batch_dup defs); [apply refs_err_NInv; assumption|]. unfold refs_ok. cbn [fst].
+  - destruct (batch_dup defs); [apply refs_err_NInv; assumption|].
+    destruct (created_dup _ _); [apply refs_err_NInv; [exact H|rewrite firstn_all; exact Hf]|]. unfold refs_ok. cbn [fst].
     apply finalize_range_NInv, fold_box_NInv, convert_defs_NInv; [apply reserve_NInv; exact H|exact Hf].
   - apply refs_err_NInv; assumption.
 Qed.
@@ -906,7 +911,10 @@ Qed.
 Definition call_ok (s : space) (c : call) : Prop :=
   match c with
   | AddType scr => script_ok s [] scr
-  | AddRefs defs _ _ => batch_dup defs = None /\ defs_ok (reserve s defs) (next_id s) defs
+  | AddRefs defs _ _ =>
+      batch_dup defs = None
+      /\ created_dup (next_id s) (convert_defs (reserve s defs) (next_id s) defs) = false
+      /\ defs_ok (reserve s defs) (next_id s) defs
   | AddRefsErr _ _ _ => False      (* successful calls only *)
   end.
 Fixpoint history_ok (s : space) (h : list call) : Prop :=
@@ -921,7 +929,7 @@ Proof.
   - unfold add_type.
     pose proof (run_script_Bnd scr s [] 0 0 HB Hok (N.le_0_l _) HD) as [HB' HD'].
     destruct (run_script s [] scr) as [s' res]. cbn [fst] in *. apply finalize_range_Bnd; assumption.
-  - destruct Hok as [Hnd Hok]. rewrite Hnd. unfold refs_ok. cbn [fst].
+  - destruct Hok as [Hnd [Hcd Hok]]. rewrite Hnd, Hcd. unfold refs_ok. cbn [fst].
     destruct (reserve_Bnd s defs HB HD) as [HB1 HD1]. destruct HB as [H1 _].
     destruct (convert_defs_Bnd defs (reserve s defs) (next_id s) (next_id s + N.of_nat (length defs)) HB1 H1 eq_refl
                 ltac:(unfold reserve; simp_space; lia) HD1 Hok) as [HB2 HD2].
@@ -1039,9 +1047,9 @@ Proof. intros defs H. apply (batch_dup_from_none defs [] O H). Qed.
 (* ... whatever else the batch contains *)
 Lemma same_batch_rejected : forall pre d1 mid d2 post n b1 b2 boxes ret,
   d_ins d1 = InsNamed n b1 -> d_ins d2 = InsNamed n b2 ->
-  call_err (AddRefs (pre ++ d1 :: mid ++ d2 :: post) boxes ret) = true.
+  forall s, call_err s (AddRefs (pre ++ d1 :: mid ++ d2 :: post) boxes ret) = true.
 Proof.
-  intros pre d1 mid d2 post n b1 b2 boxes ret H1 H2. cbn [call_err].
+  intros pre d1 mid d2 post n b1 b2 boxes ret H1 H2 s. cbn [call_err].
   destruct (batch_dup (pre ++ d1 :: mid ++ d2 :: post)) eqn:E; [reflexivity|exfalso].
   apply accepted_batch_names_distinct in E.
   rewrite flat_map_app in E. cbn [flat_map] in E. rewrite flat_map_app in E. cbn [flat_map] in E.
@@ -1053,19 +1061,41 @@ Qed.
    roll-back), so the state after the Err still renders the name twice: corpus 05
    (class C16-4) *)
 Lemma names_unique_after_rejected_batch_refuted :
-  exists d1 d2, d_key d1 <> d_key d2 /\ call_err (AddRefs [d1; d2] [] None) = true
+  exists d1 d2, d_key d1 <> d_key d2 /\ call_err empty (AddRefs [d1; d2] [] None) = true
     /\ ~ NoDup (def_names (run_history empty [AddRefs [d1; d2] [] None])).
 Proof.
   exists (mkDef 1 [] (InsNamed 1 (mkT 1 []))), (mkDef 2 [] (InsNamed 1 (mkT 2 []))).
   split; [cbn; discriminate|]. split; [reflexivity|]. change (def_names _) with [1; 1]. apply not_nodup_2.
 Qed.
 
-(* ONE definition whose conversion assigns a sub-type of the same name first: corpus 06 *)
-Lemma names_unique_inner_title_refuted :
-  exists d, ~ NoDup (def_names (run_history empty [AddRefs [d] [] None])).
+(* fix 40183ea: every named entry an ACCEPTED batch created -- definitions and the
+   inline / titled types their conversions assigned -- has its own name *)
+Lemma has_dup_false : forall l, has_dup l = false -> NoDup l.
+Proof.
+  induction l as [|a t IH]; cbn [has_dup]; intro H; [constructor|].
+  apply orb_false_iff in H. destruct H as [H1 H2]. constructor; [|apply IH; exact H2].
+  intro Hin. assert (Hex : existsb (N.eqb a) t = true) by (apply existsb_exists; exists a; split; [exact Hin|apply N.eqb_refl]).
+  rewrite Hex in H1. discriminate.
+Qed.
+
+Lemma accepted_call_names_distinct : forall s defs boxes ret,
+  call_err s (AddRefs defs boxes ret) = false ->
+  NoDup (flat_map (fun d => ins_names' (d_ins d)) defs)
+  /\ NoDup (created_names (next_id s) (convert_defs (reserve s defs) (next_id s) defs)).
+Proof.
+  intros s defs boxes ret H. cbn [call_err] in H. destruct (batch_dup defs) eqn:E; [discriminate|].
+  split; [apply accepted_batch_names_distinct; exact E|apply has_dup_false; exact H].
+Qed.
+
+(* ONE definition whose conversion assigns a sub-type of the same name first
+   (corpus 06): since 40183ea the call is REJECTED; it is not rolled back, the
+   state after the Err still has the name twice (class C16-4) *)
+Lemma inner_title_rejected :
+  exists d, batch_dup [d] = None /\ call_err empty (AddRefs [d] [] None) = true
+    /\ ~ NoDup (def_names (run_history empty [AddRefs [d] [] None])).
 Proof.
   exists (mkDef 1 [TNamed 1 (mkT 2 [])] (InsNamed 1 (mkT 1 [CRes 0]))).
-  change (def_names _) with [1; 1]. apply not_nodup_2.
+  split; [reflexivity|]. split; [reflexivity|]. change (def_names _) with [1; 1]. apply not_nodup_2.
 Qed.
 
 (* non-vacuity: a history with cycles, snips, shared structure and re-adds that
@@ -1179,7 +1209,9 @@ Proof.
     destruct (run_script s [] scr) as [s' res]. cbn [fst] in *. rewrite finalize_range_reg. exact H.
   - destruct (batch_dup defs).
     + rewrite refs_err_reg. cbn [scr_names flat_map]. rewrite app_nil_r. tauto.
-    + unfold refs_ok. cbn [fst].
+    + destruct (created_dup _ _).
+      { rewrite refs_err_reg, firstn_all. cbn [scr_names flat_map]. rewrite app_nil_r. tauto. }
+      unfold refs_ok. cbn [fst].
       rewrite finalize_range_reg, fold_box_reg, convert_defs_reg. unfold registered, reserve. simp_space. tauto.
   - apply refs_err_reg.
 Qed.
@@ -1252,7 +1284,8 @@ Lemma run_call_keptH : forall s c, keptH (next_id s) s (fst (run_call s c)).
 Proof.
   intros s c. destruct c as [scr|defs boxes ret|defs done partial];
     try (apply kept_keptH, run_call_kept; exact I).
-  cbn [run_call]. destruct (batch_dup defs); [apply kept_keptH, refs_err_kept|]. unfold refs_ok. cbn [fst].
+  cbn [run_call]. destruct (batch_dup defs); [apply kept_keptH, refs_err_kept|].
+  destruct (created_dup _ _); [apply kept_keptH, refs_err_kept|]. unfold refs_ok. cbn [fst].
   pose proof (reserve_kept (next_id s) s defs (N.le_refl _)) as H1.
   pose proof (convert_defs_kept defs (next_id s) (reserve s defs) (next_id s) (proj1 H1) (N.le_refl _)) as H2.
   pose proof (fold_box_keptH boxes (next_id s) _ (proj1 H2)) as H3.
@@ -1596,6 +1629,24 @@ Section Frame4.
     destruct Hc as [H1 H2]. destruct (box_frame Y Z pk HC HP H1) as [HC' HP']. apply IH; assumption.
   Qed.
 
+  Lemma created_names_range : forall Y Z n base, Core' Y Z -> b <= base ->
+    flat_map (fun i => match lookup N.eqb i (entries Z) with Some (Named nm _) => [nm] | _ => [] end) (range (base + d) n)
+    = flat_map (fun i => match lookup N.eqb i (entries Y) with Some (Named nm _) => [nm] | _ => [] end) (range base n).
+  Proof.
+    intros Y Z n. induction n as [|n IH]; intros base HC Hb; cbn [range flat_map]; [reflexivity|].
+    replace (base + d + 1) with (base + 1 + d) by lia. rewrite (IH (base + 1) HC) by lia. f_equal.
+    destruct HC as [_ [_ [H3 _]]]. rewrite <- (sh_ge b d base Hb), H3.
+    destruct (lookup N.eqb base (entries Y)) as [[nm β|β]|]; reflexivity.
+  Qed.
+
+  Lemma created_dup_frame : forall Y Z base, Core' Y Z -> b <= base ->
+    created_dup (base + d) Z = created_dup base Y.
+  Proof.
+    intros Y Z base HC Hb. unfold created_dup, created_names. pose proof HC as [H1 _]. rewrite H1.
+    replace (next_id Y + d - (base + d)) with (next_id Y - base) by lia.
+    rewrite (created_names_range Y Z _ base HC Hb). reflexivity.
+  Qed.
+
   (* the call as issued against the big state: snips address the shifted parents *)
   Definition shift_call (c : call) : call :=
     match c with
@@ -1611,6 +1662,7 @@ Section Frame4.
     | AddType scr => script_cond0 b d Y0 Z0 Y0 [] scr
     | AddRefs defs boxes ret =>
         batch_dup defs = None
+        /\ created_dup (next_id Y0) (convert_defs (reserve Y0 defs) (next_id Y0) defs) = false
         /\ defs_cond0 b d Y0 Z0 (reserve Y0 defs) (next_id Y0) defs
         /\ boxes_cond0 (convert_defs (reserve Y0 defs) (next_id Y0) defs) boxes
         /\ match ret with Some r => Rr b d r Y0 Z0 \/ In r (map d_key defs) | None => True end
@@ -1627,11 +1679,12 @@ Section Frame4.
       destruct (run_script Y0 [] scr) as [Y1 res]. destruct (run_script Z0 [] scr) as [Z1 resZ]. cbn [fst snd] in *.
       destruct (same_obs_frame b d G Y1 Z1 _ _ HC1 (finalize_same_obs (next_id Y0) Y1) (finalize_same_obs (next_id Z0) Z1)) as [HC2 HP2].
       split; [exact HC2|]. eapply Pres_trans; eassumption.
-    - destruct Hc as [Hnd [Hd [Hbx _]]]. rewrite Hnd. unfold refs_ok. cbn [fst].
+    - destruct Hc as [Hnd [Hcd [Hd [Hbx _]]]]. rewrite Hnd, Hcd.
       destruct (reserve_frame b d G Hb1 Y0 Z0 defs HC) as [HC1 HP1].
       pose proof HC as [Hn [Hbn _]].
       destruct (convert_defs_frame b d G Hb1 Y0 Z0 defs _ _ (next_id Y0) HC1 HP1 Hbn Hd) as [HC2 HP2].
-      rewrite <- Hn in HC2, HP2.
+      pose proof (created_dup_frame _ _ (next_id Y0) HC2 Hbn) as Hcz. rewrite Hcd in Hcz.
+      rewrite <- Hn in HC2, HP2, Hcz. rewrite Hcz. unfold refs_ok. cbn [fst].
       destruct (boxes_frame boxes _ _ HC2 HP2 Hbx) as [HC3 HP3].
       destruct (same_obs_frame b d G _ _ _ _ HC3 (finalize_same_obs (next_id Y0) _) (finalize_same_obs (next_id Z0) _)) as [HC4 HP4].
       split; [exact HC4|]. eapply Pres_trans; eassumption.
